@@ -98,21 +98,25 @@ check(
           "read with drawn read sizes, directly and through proto.Reader; (c) fault enumeration: for rapid-drawn streams of "
           "1-3 frames EVERY byte offset x masks {01,80,ff,random} is altered and everything the reader hands out, also on 3 "
           "further reads after the error, is judged; (d) truncated streams and reads past the end; (e) size fields beyond "
-          "128 MiB / below 9 with a recomputed valid checksum, allocation measured. Distinct = hash of the stream (and read "
+          "128 MiB / below 9 with a recomputed valid checksum, allocation measured; (f) client level: a Data packet whose "
+          "frame has one altered byte (length fields intact) after 0-2 intact blocks must surface from Do as "
+          "*ch.CorruptedDataErr with OnResult having run only for the intact blocks; streams are also fed through a source "
+          "that delivers arbitrary short segments. Distinct = hash of the stream (and read "
           "sizes); enumerated cases are distinct by construction. Non-trivial = a multi-frame stream with a read that "
           "straddles a frame boundary, or any alteration / truncation / oversize case, or a non-empty payload."),
     quick=[unit("codec", "^TestC05(EveryLength|Streams|EndOfStream|Oversize)", checks=2000, timeout=900),
-           unit("codec", "^TestC05Alterations", checks=120, timeout=900)],
-    thorough=[unit("codec", "^TestC05(EveryLength|Streams|EndOfStream|Oversize)", checks=20000, timeout=6000, shards=8),
-              unit("codec", "^TestC05Alterations", checks=2500, timeout=6000, shards=8)],
+           unit("codec", "^TestC05Alterations", checks=120, timeout=900),
+           unit("client", "^TestC05ClientCorruptedFrame", checks=1500, timeout=900)],
+    thorough=[unit("codec", "^TestC05(EveryLength|Streams|EndOfStream|Oversize)", checks=20000, timeout=6000, shards=6),
+              unit("codec", "^TestC05Alterations", checks=2500, timeout=6000, shards=8),
+              unit("client", "^TestC05ClientCorruptedFrame", checks=30000, timeout=6000, shards=2)],
     manifest=dict(
         text="Fault enumeration: every single-byte alteration (every offset x 4 masks) of generated frame streams, every "
              "payload length up to a bound for every method and level, with a reference frame codec built directly on "
              "go-faster/city, pierrec/lz4 and klauspost/zstd as differential oracle; the reader's output is judged byte by "
              "byte, including reads that follow a failure.",
         design_ref="DESIGN.md 4 C05",
-        note="128-bit hash collisions ignored. Trusts the third-party compression and hash libraries. The client-level "
-             "surfacing of *ch.CorruptedDataErr is exercised by the client-package checks.",
+        note="128-bit hash collisions ignored. Trusts the third-party compression and hash libraries.",
         technique="exhaustive single-byte fault enumeration + property-based round trips against a reference frame codec",
     ),
     assumptions=["city/lz4/zstd third-party implementations are correct"],
@@ -215,7 +219,7 @@ check(
           "or frame header (classified by the reference encoder's field map; per-role counters in classes)."),
     quick=[unit("codec", "^TestC07BlockCuts", checks=500, timeout=900),
            unit("codec", "^TestC07MessageCuts", checks=1200, timeout=900)],
-    thorough=[unit("codec", "^TestC07BlockCuts", checks=20000, timeout=8000, shards=12),
+    thorough=[unit("codec", "^TestC07BlockCuts", checks=10000, timeout=8000, shards=12),
               unit("codec", "^TestC07MessageCuts", checks=30000, timeout=8000, shards=4)],
     manifest=dict(
         text="Exhaustive cut enumeration over generated encodings: decoding any proper prefix must return a non-nil error "
